@@ -55,6 +55,15 @@ pub struct Cmd {
     pub expiry: Option<u64>, // only for go lines with a positive allowance
 }
 
+/// the move on a bestmove line (`bestmove <move> [ponder <move>]`)
+pub fn bestmove_of(line: &str) -> Option<String> {
+    let mut t = line.split_whitespace();
+    if t.next() != Some("bestmove") {
+        return None;
+    }
+    t.next().map(|m| m.to_string())
+}
+
 /// a line the engine handles as a go command (its first token, after whitespace clean-up, is exactly "go")
 pub fn is_go(line: &str) -> bool {
     line.split_whitespace().next() == Some("go")
@@ -259,13 +268,20 @@ const HANDSHAKE_LINES: usize = 4;
 
 /// stdout after the handshake, info lines without their time field
 pub fn replies(o: &Outcome) -> Vec<String> {
-    o.stdout.iter().skip(HANDSHAKE_LINES).map(|l| if l.starts_with("info") { crate::e2_clockpoints::strip_time(l) } else { l.clone() }).collect()
+    // `info string ...` is free-form chatter the protocol allows at any time; it is not a reply
+    o.stdout.iter().skip(HANDSHAKE_LINES).filter(|l| !l.starts_with("info string")).map(|l| if l.starts_with("info") { crate::e2_clockpoints::strip_time(l) } else { l.clone() }).collect()
 }
 
 /// state with the fields that `go` is allowed to leave behind but that cannot influence a later
 /// `position` (none are dropped: the full dump is the state)
 pub fn last_state(o: &Outcome) -> String {
     o.states.last().cloned().unwrap_or_else(|| "<initial>".to_string())
+}
+
+/// the dumped state without the two root-board fields no reply can depend on (the root's own move
+/// descriptor and ordering hint are overwritten in every successor and never printed)
+pub fn observable_state(st: &str) -> String {
+    st.split(' ').filter(|t| !t.starts_with("last=") && !t.starts_with("oh=")).collect::<Vec<_>>().join(" ")
 }
 
 fn session_json(cmds: &[Cmd]) -> J {
@@ -365,9 +381,9 @@ pub fn dynamic_cmds(session: &[Cmd], o: &Outcome) -> Vec<Cmd> {
     for (i, c) in session.iter().enumerate() {
         if is_go(&c.line) {
             for l in it.by_ref() {
-                if let Some(m) = l.strip_prefix("bestmove ") {
-                    if i > lp && m != "0000" {
-                        bests.push(m.to_string());
+                if let Some(m) = bestmove_of(&l) {
+                    if i > lp && m != "0000" && m != "(none)" {
+                        bests.push(m);
                     }
                     break;
                 }
@@ -533,11 +549,11 @@ pub fn run_c16(rep: &Report) -> i32 {
         // the state seen by the search and left by the probe equal those of a fresh engine
         let k = o.states.len();
         let st_first = &o.states[k - 3]; // after the first probe's go
-        if st_first != &last_state(f) || &o.states[k - 1] != st_first {
+        if observable_state(st_first) != observable_state(&last_state(f)) || observable_state(&o.states[k - 1]) != observable_state(st_first) {
             rep.fail("C16", "state-after-probe-differs", format!("after {:?} and probe {:?} the loop state differs from a fresh engine's", prefix.iter().map(|c| c.line.clone()).collect::<Vec<_>>(), probes[p].iter().map(|c| c.line.clone()).collect::<Vec<_>>()), session_json(&session));
         }
         if let (Some(a), Some(b)) = (o.searches.get(o.searches.len().wrapping_sub(2)), f.searches.last()) {
-            if a != b {
+            if observable_state(a) != observable_state(b) {
                 rep.fail("C16", "search-input-differs", format!("after {:?} the search started by probe {:?} receives a different board/record than on a fresh engine", prefix.iter().map(|c| c.line.clone()).collect::<Vec<_>>(), probes[p].iter().map(|c| c.line.clone()).collect::<Vec<_>>()), session_json(&session));
             }
         }
@@ -570,11 +586,11 @@ pub fn run_c16(rep: &Report) -> i32 {
         let fr = replies(&f);
         let all = replies(&o);
         let got: Vec<String> = if all.len() >= fr.len() { all[all.len() - fr.len()..].to_vec() } else { all.clone() };
-        if got != fr || last_state(&o) != last_state(&f) {
+        if got != fr || observable_state(&last_state(&o)) != observable_state(&last_state(&f)) {
             rep.fail(
                 "C16",
                 &format!("continuation-of-own-game-differs/after-{}", g.nodes[n].1.last().map(|c| c.line.split(' ').next().unwrap_or("").to_string()).unwrap_or("nothing".into())),
-                format!("after {:?} the probe {:?} replies {:?} (a fresh engine: {:?}){}", g.nodes[n].1.iter().map(|c| c.line.clone()).collect::<Vec<_>>(), probe.iter().map(|c| c.line.clone()).collect::<Vec<_>>(), got, fr, if last_state(&o) != last_state(&f) { "; the loop state differs too" } else { "" }),
+                format!("after {:?} the probe {:?} replies {:?} (a fresh engine: {:?}){}", g.nodes[n].1.iter().map(|c| c.line.clone()).collect::<Vec<_>>(), probe.iter().map(|c| c.line.clone()).collect::<Vec<_>>(), got, fr, if observable_state(&last_state(&o)) != observable_state(&last_state(&f)) { "; the loop state differs too" } else { "" }),
                 session_json(&session),
             );
         }
@@ -852,6 +868,11 @@ pub fn c10_sessions(rep: &Report) -> (u64, u64) {
 pub fn c04_sessions(rep: &Report, commands: &[String]) -> (u64, u64) {
     require_binaries();
     let h = crate::zobrist::ZobristHasher::create_zobrist_hasher();
+    for p in commands {
+        if pos_of_command(p).is_none() {
+            crate::report::machinery_error(&format!("the C04 session list contains an illegal game: {}", p));
+        }
+    }
     let others = [POSITIONS[3], POSITIONS[1]];
     let mut sessions: Vec<(Vec<Cmd>, usize)> = Vec::new(); // (session, index of the command under test)
     for (i, p) in commands.iter().enumerate() {
@@ -945,7 +966,8 @@ pub fn c15_cli(rejected: &[String], rep: &Report) -> u64 {
         match out {
             Err(e) => crate::report::machinery_error(&format!("cannot run the binary: {}", e)),
             Ok(o) => {
-                let stdout = String::from_utf8_lossy(&o.stdout).to_string();
+                // the error may be printed on either stream; a panic message on stderr comes with status 101
+                let stdout = format!("{}{}", String::from_utf8_lossy(&o.stdout), String::from_utf8_lossy(&o.stderr));
                 let accepted = stdout.contains("Searched to a depth");
                 if o.status.code() != Some(0) || stdout.trim().is_empty() {
                     rep.fail("C15", "cli-does-not-exit-normally", format!("--fen {:?}: exit status {:?}, stdout {:?}, stderr {:?}", inputs[i], o.status.code(), stdout.chars().take(200).collect::<String>(), String::from_utf8_lossy(&o.stderr).chars().take(200).collect::<String>()), J::obj().set("kind", J::s("c15-cli")).set("args", J::strs(&[&format!("--fen={}", inputs[i]), "-T", "-d", "1"])));
@@ -1031,10 +1053,38 @@ pub fn c03_sessions(rep: &Report, prop: &str) -> (u64, u64) {
             }
         }
     }
+    // positions given as FEN/startpos plus a move list with special moves (castling by both sides, corner-to-corner
+    // rook captures, en passant, promotions), then go: the answer must be legal in the position the rules give
+    for p in [
+        "position fen r3k2r/8/8/8/8/8/8/R3K2R w KQkq - 0 1 moves a1a8 e8e7",
+        "position fen r3k2r/8/8/8/8/8/8/R3K2R w KQkq - 0 1 moves h1h8 e8d7 h8h1",
+        "position fen r3k2r/8/8/8/8/8/8/R3K2R b KQkq - 0 1 moves a8a1 e1e2 a1a8",
+        "position fen r3k2r/8/8/8/8/8/8/R3K2R b KQkq - 0 1 moves h8h1 e1d2 h1h8 d2d1",
+        "position fen r7/1b4k1/8/8/1p6/8/8/RN2K3 w Q - 0 1 moves a1a8 b7a8 b1a3 b4a3",
+        "position fen r3k2r/8/8/8/8/8/8/R3K2R w KQkq - 0 1 moves e1g1 e8c8",
+        "position fen r3k2r/8/8/8/8/8/8/R3K2R w KQkq - 0 1 moves e1c1 e8g8",
+        "position fen 4k3/2p1p3/8/3P4/3p4/8/2P1P3/4K3 w - - 0 1 moves e2e4 d4e3 c2c4",
+        "position fen r3k3/1P6/8/8/8/8/1p6/R3K3 w Qq - 0 1 moves b7a8n b2a1n",
+        "position fen r3k3/8/8/8/1n6/8/Q7/4KB2 b q - 0 1 moves e8c8 f1h3",
+        "position startpos moves a2a4 b7b5 a4b5 a7a6 b5a6 c8b7 a6b7 a8a1",
+    ] {
+        for k in [0u64, 30, 300] {
+            sessions.push(vec![c(p), go(GO_TIMED, k), c("isready")]);
+        }
+        sessions.push(vec![c(p), c("go"), c("isready")]);
+    }
     // C08: terminal roots, then the engine must still serve
     for t in ["position fen 7k/6Q1/6K1/8/8/8/8/8 b - - 0 1", "position fen 7k/5Q2/6K1/8/8/8/8/8 b - - 0 1", "position startpos moves f2f3 e7e5 g2g4 d8h4"] {
         for g in ["go", GO_TIMED, "go wtime 1 btime 1", "go movestogo 1 wtime 100000 btime 100000"] {
             sessions.push(vec![c(t), go(g, 10), c("isready"), c(POSITIONS[0]), go(GO_TIMED, 10), c("isready")]);
+        }
+    }
+    // every position command of the sweep must describe a legal game (a wrong test input is not a verdict)
+    for s in &sessions {
+        for cmd in s {
+            if cmd.line.starts_with("position") && pos_of_command(&cmd.line).is_none() {
+                crate::report::machinery_error(&format!("the session sweep contains an illegal game: {}", cmd.line));
+            }
         }
     }
     let cmds_total = AtomicU64::new(0);
@@ -1079,7 +1129,7 @@ pub fn c03_sessions(rep: &Report, prop: &str) -> (u64, u64) {
                     }
                     Some(b) => {
                         bestmoves.fetch_add(1, Ordering::Relaxed);
-                        let text = b.trim_start_matches("bestmove ").to_string();
+                        let text = bestmove_of(&b).unwrap_or_default();
                         if legal.is_empty() {
                             nulls.fetch_add(1, Ordering::Relaxed);
                             if text != "0000" && text != "(none)" {
@@ -1200,7 +1250,7 @@ pub fn free_running_conformance(rep: &Report, outcomes_by_root: &BTreeMap<String
         let s = vec![c(&format!("position fen {}", roots[r])), c(allowances[a]), c("isready")];
         let o = run_session(&s, &opts);
         if let Some(b) = o.stdout.iter().find(|l| l.starts_with("bestmove")) {
-            let mv = b.trim_start_matches("bestmove ").to_string();
+            let mv = bestmove_of(b).unwrap_or_default();
             if outcomes_by_root[roots[r]].contains(&mv) {
                 ok.fetch_add(1, Ordering::Relaxed);
             } else {
